@@ -2006,8 +2006,16 @@ func privateFreeVar(fv *ssa.FreeVar) bool {
 
 // havocAllKeep: forget everything about the heap except the content of this activation's private locals.
 func (ex *Exec) havocAllKeep(h *Heap, guard Term, loop ...*Loop) *Heap {
+	return ex.havocAllKeepWith(h, guard, nil, loop...)
+}
+
+// havocAllKeepWith: setup configures the new generation (what is spared) before any of its keys is resolved.
+func (ex *Exec) havocAllKeepWith(h *Heap, guard Term, setup func(nh *Heap), loop ...*Loop) *Heap {
 	q := ex.q
 	nh := q.havocAll(h, guard)
+	if setup != nil {
+		setup(nh)
+	}
 	for e := ex; e != nil; e = e.parentExec {
 		var slices []ssa.Value
 		for v := range e.vals {
